@@ -23,9 +23,10 @@ func init() {
 
 // hcase is a replayable history.
 type hcase struct {
-	Shape hshape `json:"shape"`
-	Ops   []hop  `json:"ops"`
-	Via   string `json:"via"` // inproc | binary
+	Shape hshape   `json:"shape"`
+	Alts  []hshape `json:"alts,omitempty"` // other versions of the spokfile (op "spokfile" switches to one; -1 = back to Shape)
+	Ops   []hop    `json:"ops"`
+	Via   string   `json:"via"` // inproc | binary
 }
 
 func (h hcase) key() string {
@@ -33,7 +34,11 @@ func (h hcase) key() string {
 	for _, o := range h.Ops {
 		parts = append(parts, o.String())
 	}
-	return h.Shape.Name + ": " + strings.Join(parts, "; ")
+	k := h.Shape.Name + ": " + strings.Join(parts, "; ")
+	for i, a := range h.Alts {
+		k += fmt.Sprintf(" | spokfile version %d: %v", i, a.Tasks)
+	}
+	return k
 }
 
 // execHistory runs a history from the empty project and returns the violations of
@@ -53,23 +58,34 @@ func execHistory(c *core.Ctx, sb *sandbox, h hcase, prop string) ([]core.Violati
 	var vs []core.Violation
 	edited := false
 	sawForcedUp := false
-	sb.materialise(h.Shape, st)
+	shape := h.Shape
+	sb.materialise(shape, st)
 	for i, op := range h.Ops {
+		if op.Kind == "spokfile" {
+			// the user edits the spokfile: a task's declared dependencies change
+			shape = h.Shape
+			var k int
+			if _, err := fmt.Sscanf(op.Value, "%d", &k); err == nil && k >= 0 && k < len(h.Alts) {
+				shape = h.Alts[k]
+			}
+			edited = true
+			continue
+		}
 		if op.Kind != "run" {
 			applyEdit(&st, op)
 			edited = true
 			continue
 		}
-		sb.materialise(h.Shape, st)
+		sb.materialise(shape, st)
 		var o hobs
 		if h.Via == "binary" {
-			o = sb.runBinary(c.SpokRace(), h.Shape, op, nil)
+			o = sb.runBinary(c.SpokRace(), shape, op, nil)
 		} else {
-			o = sb.runInproc(h.Shape, op)
+			o = sb.runInproc(shape, op)
 		}
 		pre := st.clone()
-		sb.readBack(h.Shape, &st)
-		vd := judgeRun(h.Shape, pre, o, &st, true)
+		sb.readBack(shape, &st)
+		vd := judgeRun(shape, pre, o, &st, true)
 		stats.Runs++
 		stats.Skips += vd.Skips
 		stats.Reruns += vd.Reruns
@@ -120,7 +136,7 @@ func shrinkHistory(c *core.Ctx, sb *sandbox, h hcase, prop, clause string) hcase
 	for changed := true; changed; {
 		changed = false
 		for i := len(cur.Ops) - 1; i >= 0; i-- {
-			cand := hcase{Shape: cur.Shape, Via: cur.Via}
+			cand := hcase{Shape: cur.Shape, Alts: cur.Alts, Via: cur.Via}
 			cand.Ops = append(append([]hop{}, cur.Ops[:i]...), cur.Ops[i+1:]...)
 			if fails(cand) {
 				cur = cand
@@ -320,8 +336,32 @@ func randHistory(r *core.Rng, length int) hcase {
 			}
 		}
 	}
+	if r.Chance(35) {
+		// a second version of the spokfile in which one task declares one dependency more or less
+		alt := hshape{Name: s.Name, Files: s.Files}
+		for _, t := range s.Tasks {
+			nt := t
+			nt.Lits = append([]string{}, t.Lits...)
+			nt.Globs = append([]string{}, t.Globs...)
+			alt.Tasks = append(alt.Tasks, nt)
+		}
+		t := &alt.Tasks[r.Intn(len(alt.Tasks))]
+		switch {
+		case len(t.Lits) > 0 && r.Chance(40):
+			t.Lits = t.Lits[1:]
+		case len(t.Globs) > 0 && r.Chance(40):
+			t.Globs = t.Globs[:len(t.Globs)-1]
+		case r.Bool():
+			t.Lits = append(t.Lits, core.Pick(r, randFiles[:4]))
+		default:
+			t.Globs = append(t.Globs, core.Pick(r, randGlobs))
+		}
+		h.Alts = []hshape{alt}
+	}
 	for len(h.Ops) < length {
 		switch k := r.Intn(100); {
+		case len(h.Alts) > 0 && k < 8:
+			h.Ops = append(h.Ops, hop{Kind: "spokfile", Value: core.Pick(r, []string{"0", "0", "-1"})})
 		case k < 50:
 			var req []string
 			for _, t := range s.Tasks {
@@ -430,7 +470,7 @@ func histRandom(c *core.Ctx, sb *sandbox, res *core.ShardResult, wl *core.WLog) 
 // Orchestrator
 
 var histRules = map[string]string{
-	"C01": "states = (content of every project file, bytes of .spok/cache.json or its absence, model of each task's last success); breadth-first search from the empty project over {write 'v1' / the empty content to each file, delete it, rm -rf .spok, run every non-empty task subset plain/forced, also with the first command of each closure task failing} on 11 spokfile shapes (literal, glob, recursive glob, both, no-file task, shared file, task dependency, same glob with different literals, a file named twice, a generated input copied by a dependency, chain of three), each (state, run-op) executed once by the real code in-process (to a fixpoint unless the cap is reported), plus seeded random histories in a larger universe (3 values and the empty content, 7 files incl. hidden and nested, random task shapes), every 20th also through the race-built binary. evaluations = spok invocations judged; non-trivial = distinct (state, run-op) transitions in which a skip was observed, resp. random histories with a skip after an edit and a re-run",
+	"C01": "states = (content of every project file, bytes of .spok/cache.json or its absence, model of each task's last success); breadth-first search from the empty project over {write 'v1' / the empty content to each file, delete it, rm -rf .spok, run every non-empty task subset plain/forced, also with the first command of each closure task failing} on 12 spokfile shapes (task names differing only in case, literal, glob, recursive glob, both, no-file task, shared file, task dependency, same glob with different literals, a file named twice, a generated input copied by a dependency, chain of three), each (state, run-op) executed once by the real code in-process (to a fixpoint unless the cap is reported), plus seeded random histories in a larger universe (3 values and the empty content, 7 files incl. hidden and nested, random task shapes, in a third of the histories the spokfile itself is edited so that a task declares one dependency more or less), every 20th also through the race-built binary. evaluations = spok invocations judged; non-trivial = distinct (state, run-op) transitions in which a skip was observed, resp. random histories with a skip after an edit and a re-run",
 	"C02": "same search and histories as C01, judged in the converse direction (crash-free only); non-trivial = distinct transitions/histories in which the model demanded a skip inside a multi-task invocation",
 	"C14": "same search and histories as C01 (any run may carry --force); non-trivial = distinct forced transitions that hit an up-to-date task, resp. random histories with such a forced run followed by an unforced run",
 }
